@@ -74,6 +74,27 @@ let dec_of_u64 (x : int64) : String.t = Printf.sprintf "%Lu" x
 let hash_of_seed (seed : int64) : n list -> n =
   fun b -> n_of_dec (dec_of_u64 (xxh64 seed (coq_to_bytes b)))
 
+(* ---------------------------------------------------------------- extraction cross-check dump *)
+(* With ORACLE_DUMP=<file> every byte string the EXTRACTED model computes for a case is appended to
+   that file as numbers (length and all bytes when <= 64 bytes, else length, byte sum and a
+   positional checksum), together with the model-side pair relations; bin/coqreplay_c24.py
+   recomputes the same numbers inside Coq with vm_compute.  Digests are not computable in Coq:
+   keys that embed a digest are dumped with the constant hash 0 and with the recorded digest. *)
+let dump_chan = match Sys.getenv_opt "ORACLE_DUMP" with
+  | Some p when p <> "" -> Some (open_out_gen [Open_append; Open_creat] 0o644 p)
+  | _ -> None
+let summ (l : n list) : int list =
+  let b = List.map int_of_n l in
+  let len = List.length b in
+  if len <= 64 then len :: b
+  else [len; List.fold_left (+) 0 b; List.fold_left (fun c x -> (c * 31 + x) mod 1000000007) 7 b]
+let bi b = if b then 1 else 0
+let dump (id : String.t) (nums : int list) : unit =
+  match dump_chan with
+  | Some ch -> output_string ch (id ^ " " ^ String.concat " " (List.map string_of_int nums) ^ "\n")
+  | None -> ()
+let hash0 : n list -> n = fun _ -> N0
+
 (* ---------------------------------------------------------------- parsing the abstract inputs *)
 type npb = NNull | NNum of String.t | NStr of String.t | NBool of bool | NUnset
          | NList of npb list | NStruct of (String.t * npb) list
@@ -133,6 +154,7 @@ type check_side = {
   c_sem : String.t list * npb * ntuple list;       (* canonical semantic value *)
   c_inv_sem : String.t list * npb * ntuple list;
   c_key : String.t; c_inv : String.t; c_tiefree : bool; c_verdict : String.t;
+  c_dump : int list; c_invb : n list;
 }
 
 let check_side (seed : int64) (v : value) : check_side =
@@ -145,6 +167,8 @@ let check_side (seed : int64) (v : value) : check_side =
     let tf = tie_free cts in
     let n = List.length cts in
     let b = bytes_to_coq in
+    let invb = inv_bytes (b store) (b model) cctx cts in
+    let c_dump = summ invb @ summ (pkey_bytes (KCheck (b store, b obj, b rel, b user, n_of_dec inv))) @ [bi tf] in
     let v_inv =
       if n > 12 && not tf then "OK"   (* pdqsort's order among tied, differently encoded tuples is not modelled *)
       else begin
@@ -170,7 +194,8 @@ let check_side (seed : int64) (v : value) : check_side =
     let v_wf = if wf then "OK" else "DIFF input outside the modelled domain (number bits >= 2^64)" in
     { c_sem = ([store; model; obj; rel; user], nctx, nts);
       c_inv_sem = ([store; model], nctx, nts);
-      c_key = key; c_inv = inv; c_tiefree = tf; c_verdict = combine [v_sort; v_inv; v_key; v_batch; v_wf] }
+      c_key = key; c_inv = inv; c_tiefree = tf; c_verdict = combine [v_sort; v_inv; v_key; v_batch; v_wf];
+      c_dump; c_invb = invb }
   | _ -> failwith "bad check side"
 
 let pair_pred what keys_eq sem_eq ~(known : String.t option) : String.t =
@@ -188,7 +213,7 @@ type iter_side = {
   i_ent : String.t list; i_ent_str : String.t list;  (* structured entries / the strings the code builds *)
   i_conds : String.t list;
   i_oids : String.t list option;
-  i_key : String.t; i_verdict : String.t;
+  i_key : String.t; i_verdict : String.t; i_dump : int list; i_stage1 : n list;
 }
 
 let strs l = List.map as_bytes (as_list l)
@@ -208,7 +233,10 @@ let iter_side (kind : int) (seed : int64) (v : value) : iter_side =
       i_ent = List.map (fun (o, r) -> hx o ^ "/" ^ hx r) ufp;
       i_ent_str = List.map (fun e -> cs (uf_str e)) cuf;
       i_conds = conds; i_oids = oid; i_key = key;
-      i_verdict = cmpb "ReadStartingWithUserKey" (coq_to_bytes model) key }
+      i_verdict = cmpb "ReadStartingWithUserKey" (coq_to_bytes model) key;
+      i_stage1 = rswu_stage1 cuf (Option.map cstrs oid) (cstrs conds);
+      i_dump = summ (rswu_stage1 cuf (Option.map cstrs oid) (cstrs conds))
+               @ summ (rswu_key hash0 (b store) (b ot) (b rel) cuf (Option.map cstrs oid) (cstrs conds)) }
   | 5, [B store; B obj; B rel; L refs; conds; B key] ->
     let rp = List.map (fun e -> match as_list e with
         | [B t; I k; B r] -> (t, int_of_string k, r) | _ -> failwith "ref") refs in
@@ -219,17 +247,21 @@ let iter_side (kind : int) (seed : int64) (v : value) : iter_side =
       i_ent = List.map (fun (t, k, r) -> Printf.sprintf "%s/%d/%s" (hx t) k (hx r)) rp;
       i_ent_str = List.map (fun e -> cs (ref_str e)) crefs;
       i_conds = conds; i_oids = None; i_key = key;
-      i_verdict = cmpb "ReadUsersetTuplesKey" (coq_to_bytes model) key }
+      i_verdict = cmpb "ReadUsersetTuplesKey" (coq_to_bytes model) key;
+      i_stage1 = rut_stage1 crefs (cstrs conds);
+      i_dump = summ (rut_stage1 crefs (cstrs conds)) @ summ (rut_key hash0 (b store) (b obj) (b rel) crefs (cstrs conds)) }
   | 6, [B store; B obj; B rel; B user; conds; B key] ->
     let conds = strs conds in
     let model = read_key hash (b store) (b obj) (b rel) (b user) (cstrs conds) in
     { i_outer = [store; obj; rel; user]; i_wf = true; i_ent = []; i_ent_str = [];
       i_conds = conds; i_oids = None; i_key = key;
-      i_verdict = cmpb "ReadKey" (coq_to_bytes model) key }
+      i_verdict = cmpb "ReadKey" (coq_to_bytes model) key;
+      i_stage1 = read_stage1 (cstrs conds);
+      i_dump = summ (read_stage1 (cstrs conds)) @ summ (read_key hash0 (b store) (b obj) (b rel) (b user) (cstrs conds)) }
   | _ -> failwith "bad iterator side"
 
 (* ---------------------------------------------------------------- kind 7: plain keys *)
-let plain_side (v : value) : (String.t * String.t list) * String.t * String.t =
+let plain_side (v : value) : (String.t * String.t list) * String.t * String.t * n list =
   match as_list v with
   | [I ctor; L args; B key] ->
     let b v = bytes_to_coq (as_bytes v) in
@@ -246,7 +278,7 @@ let plain_side (v : value) : (String.t * String.t list) * String.t * String.t =
     let sem = (ctor, List.map (fun a -> match a with B s -> "x" ^ hx s | I d -> d | _ -> "?") args) in
     let v = if not (pkey_wf k) then "DIFF input outside the modelled domain"
       else cmpb ("key ctor " ^ ctor) (coq_to_bytes (pkey_bytes k)) key in
-    (sem, key, v)
+    (sem, key, v, pkey_bytes k)
   | _ -> failwith "bad plain side"
 
 (* ---------------------------------------------------------------- main dispatch *)
@@ -268,11 +300,13 @@ let f _id vs =
       | [I "9"; k; v] -> SPair (parse_ser k, parse_ser v)
       | _ -> failwith "bad ser" in
     let s = parse_ser sv in
+    dump _id (summ (enc_ser s));
     if not (ser_wf s) then "DIFF input outside the modelled domain"
     else cmpb "Serializable.WriteTo" (coq_to_bytes (enc_ser s)) obs
   | [I "2"; top; pv; B obs] ->
     let (c, _) = parse_pb pv in
     let o = if as_int top = 0 then None else Some c in
+    dump _id (summ (pb_write_opt o) @ summ (enc_pb c));
     let model = coq_to_bytes (pb_write_opt o) in
     let fuel = match pb_write_outcome c with OutOfFuel -> "DIFF model ran out of fuel" | Bytes _ -> "OK" in
     let spec = if as_int top = 0 then "OK" else cmpb "recursive specification vs stack walk" (coq_to_bytes (enc_pb c)) model in
@@ -280,6 +314,7 @@ let f _id vs =
   | [I "3"; I seed; a; b] ->
     let seed = u64_of_dec seed in
     let sa = check_side seed a and sb = check_side seed b in
+    dump _id (sa.c_dump @ sb.c_dump @ [bi (sa.c_invb = sb.c_invb)]);
     let known = if sa.c_tiefree && sb.c_tiefree then None else Some "ctx_tuple_tie_order" in
     combine [sa.c_verdict; sb.c_verdict;
              pair_pred "InvariantCacheKey" (sa.c_inv = sb.c_inv) (sa.c_inv_sem = sb.c_inv_sem) ~known;
@@ -288,6 +323,7 @@ let f _id vs =
     let seed = u64_of_dec seed in
     let kind = int_of_string k in
     let sa = iter_side kind seed a and sb = iter_side kind seed b in
+    dump _id (sa.i_dump @ sb.i_dump @ [bi (sa.i_stage1 = sb.i_stage1)]);
     let keys_eq = sa.i_key = sb.i_key in
     (* user-filter / reference entries: structured when the names of BOTH sides are well-formed
        (the theorems' names_wellformed hypothesis), else as the strings the code builds (which is
@@ -310,13 +346,17 @@ let f _id vs =
       else "OK" in
     combine [sa.i_verdict; sb.i_verdict; pred]
   | [I "7"; a; b] ->
-    let (sema, ka, va) = plain_side a and (semb, kb, vb) = plain_side b in
+    let (sema, ka, va, ba) = plain_side a and (semb, kb, vb, bb) = plain_side b in
+    dump _id (summ ba @ summ bb @ [bi (ba = bb)]);
     combine [va; vb; pair_pred "plain key" (ka = kb) (sema = semb) ~known:None]
   | [I "8"; L input; L perm; L less] ->
     let ts = List.map (fun v -> fst (parse_tuple v)) input in
     let n = List.length ts in
     let arr = Array.of_list ts in
     let perm = List.map as_int perm in
+    dump _id (List.map fst (go_isort (fun a b -> tk_less (snd a) (snd b)) (List.mapi (fun i t -> (i, t)) ts))
+              @ [bi (tie_free ts)]
+              @ (if n <= 7 then List.concat (List.map (fun a -> List.map (fun b -> bi (tk_less a b)) ts) ts) else []));
     let v_less =
       if less = [] then "OK" else begin
         let model = List.concat (List.map (fun a -> List.map (fun b -> tk_less a b) ts) ts) in
